@@ -2,6 +2,7 @@ package c03
 
 import (
 	"fmt"
+	"os"
 	"sync"
 	"testing"
 
@@ -30,6 +31,9 @@ func TestConcurrentPresentations(t *testing.T) {
 		seed := rapid.Uint64().Draw(rt, "seed")
 		m := rapid.IntRange(1, 4).Draw(rt, "m")
 		k := at([]int{2, 3, 8, 16, 32, 5}, rapid.IntRange(0, 5).Draw(rt, "k"))
+		if os.Getenv("VERIF_C03_LIGHT") != "" { // -race stage: the detector makes every goroutine very expensive
+			m, k = min(m, 2), min(k, 8)
+		}
 		pre := rapid.IntRange(0, 1<<m-1).Draw(rt, "pre")
 		forged := rapid.IntRange(0, 3).Draw(rt, "forged")
 		w, err := sstcp.NewWorld(class, seed, seed^0xA5A5)
